@@ -35,7 +35,7 @@ def main():
         d = os.path.join(out, name)
         meta = json.load(open(os.path.join(d, "meta.json")))
         feats = (meta.get("features") or "").strip()
-        featarg = ("--features " + feats.replace("--features", "").strip()) if feats and feats not in ("none", "-") else ""
+        featarg = ("--features " + ",".join(feats.replace("--features", "").replace(",", " ").split())) if feats and feats not in ("none", "-") else ""
         r = dict(property=prop, name=name, summary=meta.get("summary"), site=meta.get("site"), needs=meta.get("needs"), features=feats)
         sh("git checkout -- . && rm -f tests/seeded_demo.rs examples/seeded_demo.rs", cwd=wt)
         rc, o = sh("git apply --check OUT/%s/patch.diff && git apply OUT/%s/patch.diff" % (name, name), cwd=wt)
